@@ -59,6 +59,8 @@ pub struct Case<S: StoredVec<I = usize, T = usize>, G: StoredVec<I = usize, T = 
     vals: Vec<Vec<usize>>,
     tgt: Option<EagerVec<G>>,
     ver: Vec<u32>,
+    /// C19 reference: the combined version the last successful compute call presented (None = nothing computed yet)
+    ref_recorded: Option<Version>,
     gen_no: u32,
     scratch_no: u32,
     exit: Exit,
@@ -78,7 +80,7 @@ impl<S: StoredVec<I = usize, T = usize>, G: StoredVec<I = usize, T = usize>> Cas
         let n = shape(method).len();
         let src = (0..n).map(|k| open_src::<S>(&db, &format!("s{k}"), 1)).collect();
         let tgt = Some(EagerVec::<G>::forced_import(&db, "t", Version::new(1)).unwrap());
-        Case { _dir: dir, db, method: method.into(), window, from, src, vals: vec![vec![]; n], tgt, ver: vec![1; n], gen_no: 0, scratch_no: 0, exit: Exit::new() }
+        Case { _dir: dir, db, method: method.into(), window, from, src, vals: vec![vec![]; n], tgt, ver: vec![1; n], ref_recorded: None, gen_no: 0, scratch_no: 0, exit: Exit::new() }
     }
 
     /// append `k` elements to every source, respecting the shape constraints
@@ -151,7 +153,13 @@ impl<S: StoredVec<I = usize, T = usize>, G: StoredVec<I = usize, T = usize>> Cas
 
     /// replace source `k` by a vector with the same contents and the next version
     pub fn bump(&mut self, k: usize) {
-        self.ver[k] += 1;
+        let v = self.ver[k] + 1;
+        self.setver(k, v);
+    }
+
+    /// replace source `k` by a vector with the same contents and version `v` (higher OR lower than before)
+    pub fn setver(&mut self, k: usize, v: u32) {
+        self.ver[k] = v;
         self.gen_no += 1;
         let mut nv = open_src::<S>(&self.db, &format!("s{k}_g{}", self.gen_no), self.ver[k]);
         for &v in &self.vals[k] { nv.push(v); }
@@ -241,7 +249,13 @@ impl<S: StoredVec<I = usize, T = usize>, G: StoredVec<I = usize, T = usize>> Cas
         }
         // C19: evaluation log of the closure + kept prefix
         if out == "ok" && matches!(self.method.as_str(), "to" | "transform") {
-            let changed = recorded_after != recorded_before;
+            // the version this call presents: the vector's own version + the dependency's (independent of what the header says)
+            let presented = t.header().vec_version() + self.src[0].version();
+            if recorded_after != presented {
+                fails.push(format!("C19: the call presented version {presented:?} but the header records {recorded_after:?}"));
+            }
+            let changed = match self.ref_recorded { Some(v) => v != presented, None => recorded_before != presented };
+            self.ref_recorded = Some(presented);
             let lo = if changed { 0 } else { max_from.min(stored_before) };
             let want: Vec<usize> = (lo..inc.len()).collect();
             if log != want {
@@ -299,6 +313,7 @@ fn run_case<S: StoredVec<I = usize, T = usize>, G: StoredVec<I = usize, T = usiz
                 out.push("ok".into());
             }
             "bump" => { case.as_mut().unwrap().bump(num(1) as usize); out.push("ok".into()); }
+            "setver" => { case.as_mut().unwrap().setver(num(1) as usize, num(2) as u32); out.push("ok".into()); }
             "compute" => {
                 let (obs, fails) = case.as_mut().unwrap().compute(num(1) as usize, num(2) as usize);
                 let o = if fails.is_empty() { "ok".to_string() } else { format!("fail:{}", fails.join("; ")) };
@@ -330,7 +345,7 @@ fn gen_case(seed: u64, case_no: u64, len: u64, c19: bool) -> Vec<String> {
     let n_ops = len / 2 + r.below(len + 1);
     let nsrc = shape(m).len() as u64;
     for _ in 0..n_ops {
-        match r.weighted(&[30, 10, 34, 6, 4, 4, if c19 { 12 } else { 2 }]) {
+        match r.weighted(&[30, 10, 34, 6, 4, 4, if c19 { 7 } else { 1 }, if c19 { 7 } else { 1 }]) {
             0 => { let k = *r.pick(&[1usize, 1, 2, 3, 7, 20]); lines.push(format!("append {k} {}", r.below(1 << 30))); n += k; }
             1 if n > 0 => {
                 let t = match r.below(4) { 0 => 0, 1 => n - 1, 2 => n / 2, _ => r.below(n as u64) as usize };
@@ -353,7 +368,8 @@ fn gen_case(seed: u64, case_no: u64, len: u64, c19: bool) -> Vec<String> {
             3 => lines.push("twrite".into()),
             4 => lines.push("tflush".into()),
             5 => lines.push("treimport".into()),
-            _ => { lines.push(format!("bump {}", r.below(nsrc))); }
+            6 => { lines.push(format!("bump {}", r.below(nsrc))); }
+            _ => { lines.push(format!("setver {} {}", r.below(nsrc), 1 + r.below(4))); }
         }
     }
     let mf = first_changed.min(computed);
